@@ -234,3 +234,59 @@ contract(SOL + "irrigation.py", "irrigation",
                                      "IrrMngt_AppEff": "IrrMngt_IrrMethod == 1 or IrrMngt_IrrMethod == 2"}),
          assigns=[],
          props=("C13", "C04", "C06", "C20", "C12", "C16"))
+
+# ----------------------------------------------------------------------------- infiltration
+_IN = "(max(Infl, 0) + ite(growing_season, Irr * (IrrMngt_AppEff / 100), 0))"
+_BE = "(FieldMngt_Bunds and FieldMngt_zBund > 0.001)"
+_INF_INV = [
+    ("range", "-1 <= ii and ii <= Soil_nComp - 1 and Soil_nComp == n"),
+    ("signs", "ToStore >= 0 and Runoff >= 0"),
+    ("mass", "wsum(prof.dz, thnew, n) + ToStore + Runoff == wsum(prof.dz, InitCond_th, n) + entry_L1_ToStore"),
+    ("frame", "forall(j, ii + 1, n, thnew[j] == InitCond_th[j])"),
+    ("bounds", "forall(j, 0, n, InitCond_th[j] <= thnew[j] and thnew[j] <= prof.th_s[j])"),
+    ("flux", "forall(j, 0, n, FluxOut[j] <= prof.Ksat[j])"),
+]
+contract(SOL + "infiltration.py", "infiltration",
+         params=dict(prof=OBJ("SoilProfile"), NewCond_SurfaceStorage="Real", NewCond_th_fc_Adj=_PA, NewCond_th=_PA, Infl="Real", Irr="Real",
+                     IrrMngt_AppEff="Real", FieldMngt_Bunds="Bool", FieldMngt_zBund="Real", FluxOut=_PA, DeepPerc0="Real", Runoff0="Real",
+                     growing_season="Bool"),
+         ghost=GHOST_N,
+         requires=WF() + [
+             WATER_INV("NewCond_th"),
+             "forall(j, 0, n, prof.th_fc[j] <= NewCond_th_fc_Adj[j] and NewCond_th_fc_Adj[j] <= prof.th_s[j])",
+             "forall(j, 0, n, FluxOut[j] <= prof.Ksat[j])",
+             "NewCond_SurfaceStorage >= 0", "Irr >= 0", "0 <= IrrMngt_AppEff and IrrMngt_AppEff <= 100", "FieldMngt_zBund >= 0",
+             "implies(%s, NewCond_SurfaceStorage <= FieldMngt_zBund)" % _BE,
+         ],
+         returns=[("thnew", _PA), ("SS", "Real"), ("DeepPerc", "Real"), ("RunoffTot", "Real"), ("InflOut", "Real"), ("FluxOutR", _PA)],
+         ensures=[
+             ("C01.infiltration_mass", "wsum(prof.dz, thnew, n) + SS + (RunoffTot - Runoff0) + (DeepPerc - DeepPerc0) == "
+                                       "old(wsum(prof.dz, NewCond_th, n)) + NewCond_SurfaceStorage + " + _IN),
+             ("C02.infiltration_partition", "InflOut + (RunoffTot - Runoff0) == " + _IN),
+             ("C02.infiltration_runoff_bounds", "0 <= RunoffTot - Runoff0 and RunoffTot - Runoff0 <= NewCond_SurfaceStorage + " + _IN),
+             ("C02.infiltration_negative_only_on_bund_removal", "InflOut >= -NewCond_SurfaceStorage and implies(InflOut < 0, not %s)" % _BE),
+             ("C02.infiltration_zero", "implies(%s == 0 and NewCond_SurfaceStorage == 0, InflOut == 0 and RunoffTot == Runoff0)" % _IN),
+             ("C03.infiltration_bounds", WATER_INV("thnew")),
+             ("C03.infiltration_ponding", "SS >= 0 and implies(%s, SS <= FieldMngt_zBund) and implies(not FieldMngt_Bunds, SS == 0)" % _BE),
+             ("C04.infiltration_deep_perc_sign", "DeepPerc >= DeepPerc0"),
+             ("C03.infiltration_monotone", "forall(j, 0, n, thnew[j] >= old(NewCond_th[j]))"),
+             ("C12.infiltration_fresh", "fresh(thnew) and same(FluxOutR, FluxOut)"),
+             ("C01.infiltration_flux", "forall(j, 0, n, FluxOutR[j] <= prof.Ksat[j])"),
+         ],
+         loops={
+             "L1": dict(invariant=_INF_INV, decreases="Soil_nComp - 1 - ii",
+                        # water only ever enters compartments: the column holds at least what it held (pointwise => sums)
+                        exit_lemmas=["sum_le(prof.dz, InitCond_th, thnew, n)"]),
+             "L1.1": dict(invariant=[
+                 ("range", "0 <= precomp and precomp <= ii + 1 and 0 <= ii and ii <= n - 1 and Soil_nComp == n"),
+                 ("signs", "ToStore >= 0 and Runoff >= 0 and excess >= 0"),
+                 ("mass", "wsum(prof.dz, thnew, n) + ToStore + Runoff + excess == wsum(prof.dz, InitCond_th, n) + entry_L1_ToStore"),
+                 ("frame", "forall(j, ii + 1, n, thnew[j] == InitCond_th[j])"),
+                 ("bounds", "forall(j, 0, n, InitCond_th[j] <= thnew[j] and thnew[j] <= prof.th_s[j])"),
+                 # FluxOut[ii] was incremented by the whole ToStore; the first back-up step (precomp == ii) takes the excess off again
+                 ("flux", "forall(j, 0, n, FluxOut[j] - ite(j == ii and precomp == ii + 1, excess, 0) <= prof.Ksat[j])"),
+             ], decreases="precomp"),
+         },
+         assigns=["FluxOut[*]"],
+         options=dict(merge_limit=14, reads_only_if={"FieldMngt_zBund": "FieldMngt_Bunds", "IrrMngt_AppEff": "growing_season"}),
+         props=("C01", "C02", "C03", "C04", "C12", "C16", "C20"))
